@@ -267,9 +267,10 @@ def run_harness(rvh, cases, workdir, name="trace", timeout_ms=10000, max_timeout
     n = len(cases)
     first = True
     guard = 0
+    retried = -1
     while start < n:
         guard += 1
-        if guard > n + 5:
+        if guard > 2 * n + 50:
             raise ToolError("harness restart loop")
         cmd = [rvh, cpath, tpath, "--from", str(start), "--timeout-ms", str(timeout_ms)]
         if not first:
@@ -279,6 +280,9 @@ def run_harness(rvh, cases, workdir, name="trace", timeout_ms=10000, max_timeout
         done = len(read_ndjson(tpath)) if os.path.exists(tpath) else 0
         if p.returncode == 0:
             break
+        if p.returncode == 4:      # the harness hands control back after a batch (its memory is returned to the system)
+            start = done
+            continue
         if p.returncode == 3:      # watchdog: event already written
             start = done
             ntimeouts = sum(1 for e in read_ndjson(tpath) if e.get("ev") == "timeout")
@@ -303,6 +307,13 @@ def run_harness(rvh, cases, workdir, name="trace", timeout_ms=10000, max_timeout
             start = len(evs)
             continue
         evs = evs[:cur]
+        # a process killed from outside (memory pressure) is not a crash of the code under test: the case is run
+        # once more on its own in a fresh process, and only a second hard failure is recorded as a crash
+        write_ndjson(tpath, evs)
+        if retried != cur:
+            retried = cur
+            start = cur
+            continue
         evs.append({"ev": "crash", "id": cases[cur].get("id"), "mode": cases[cur].get("mode"),
                     "rc": p.returncode, "msg": p.stdout[-300:]})
         write_ndjson(tpath, evs)
